@@ -368,17 +368,30 @@ def translate_builder():
 
 
 def generate():
-    utils = translate_utils()
-    builder, bfields = translate_builder()
+    """Returns (coq text, [errors]). A part whose translation fails is emitted as the empty program (so that nothing
+    stale is ever proved about or run), and the failure is returned for the report."""
+    errors = []
+    try:
+        utils = translate_utils()
+    except TranslateError as e:
+        utils, _ = [], errors.append("sylvia/src/utils.rs: %s" % e)
+    try:
+        builder, bfields = translate_builder()
+    except TranslateError as e:
+        (builder, bfields), _ = ([], []), errors.append("sylvia/src/builder/instantiate.rs: %s" % e)
+
+    def prog(fns):
+        return "  [ " + ";\n    ".join(fns) + " ]." if fns else "  []."
     text = "\n".join([
         "(* GENERATED on every run by py/verif/imp_translate.py from /repo/sylvia/src/utils.rs and",
         "   /repo/sylvia/src/builder/instantiate.rs (syn dump of the probe). Do not edit. *)",
         "From Coq Require Import String List.", "Require Import SV.Model.Imp.", "Import ListNotations.",
-        "Open Scope string_scope.", "",
-        "Definition utils_program : program :=", "  [ " + ";\n    ".join(utils) + " ].", "",
-        "Definition builder_program : program :=", "  [ " + ";\n    ".join(builder) + " ].", "",
+        "Open Scope string_scope.", ""] +
+        ["(* NOT TRANSLATED: %s *)" % e.replace("*)", "* )") for e in errors] + [
+        "Definition utils_program : program :=", prog(utils), "",
+        "Definition builder_program : program :=", prog(builder), "",
         "Definition builder_fields : list string := " + clist([cs(f) for f in bfields]) + ".", ""])
-    return text
+    return text, errors
 
 
 def write(text):
